@@ -49,6 +49,9 @@ type WorldOpts struct {
 	// FullCandidate: candidate 0 (a validator) gets synthetic base-coin delegators until 1000, 999
 	// or 998 of its 1000 delegation slots are taken: most stakes around a drawn level, a few low ones
 	FullCandidate bool
+	// SpreadCandidateIDs gives every second extra candidate the id of its predecessor plus 256, 512 or 768
+	// (worlds without genesis frozen funds / waitlist only)
+	SpreadCandidateIDs bool
 	// ExtraAccounts adds that many keyless accounts holding 1 bip (ExtraAddr(k)) to the genesis
 	ExtraAccounts int
 }
@@ -416,6 +419,11 @@ func GenWorld(t *rapid.T, o WorldOpts) *World {
 			ControlAddress: GetUser(rapid.IntRange(0, w.NUsers-1).Draw(t, "candControl")).Addr,
 			Commission:     uint64(rapid.SampledFrom([]int{0, 5, 10, 50, 99, 100, rapid.IntRange(0, 100).Draw(t, "commAny")}).Draw(t, "candCommission")),
 			Status:         2,
+		}
+		if o.SpreadCandidateIDs && !o.Frozen && i >= nv && (i-nv)%2 == 1 {
+			// ids that differ by a multiple of 256 from the previous candidate's (the id is stored
+			// little-endian in the tree keys)
+			c.ID = uint64(i) + 256*uint64(1+(i-nv)/2%3)
 		}
 		if i >= nv {
 			// extra candidates: offline, or online with small/large stake
